@@ -255,8 +255,11 @@ class FixedWindowPolicy:
         return self._window_size
 
     def _get_window_start(self, now: Instant) -> Instant:
-        now_s = now.to_seconds()
-        return Instant.from_seconds((now_s // self._window_size) * self._window_size)
+        # Integer nanoseconds: float floor-division mis-places instants that lie
+        # exactly on a window boundary (0.3 // 0.1 == 2.0), which left the limiter
+        # in the exhausted window while time_until_available() reported zero.
+        window_ns = max(1, Duration.from_seconds(self._window_size).nanoseconds)
+        return Instant((now.nanoseconds // window_ns) * window_ns)
 
     def _maybe_reset(self, now: Instant) -> None:
         ws = self._get_window_start(now)
